@@ -1125,6 +1125,7 @@ void
 lys_unres_glob_revert(struct ly_ctx *ctx, struct lys_glob_unres *unres)
 {
     uint32_t i, j, idx, *prev_lo, temp_lo = 0;
+    uint16_t flags;
     struct lysf_ctx fctx = {.ctx = ctx};
     struct ly_set *dep_set;
     struct lys_module *m, *mod_latest;
@@ -1205,9 +1206,14 @@ lys_unres_glob_revert(struct ly_ctx *ctx, struct lys_glob_unres *unres)
                 }
             }
         }
+        /* only what was implemented before is to be compiled again, LY_CTX_REF_IMPLEMENTED may have been set
+         * since then and would implement further modules now */
+        flags = ctx->flags;
+        ctx->flags &= ~LY_CTX_REF_IMPLEMENTED;
         prev_lo = ly_temp_log_options(&temp_lo);
         ret = lys_compile_depset_all(ctx, &ctx->unres);
         ly_temp_log_options(prev_lo);
+        ctx->flags = flags;
         if (ret) {
             LOGINT(ctx);
         }
